@@ -49,6 +49,8 @@ structure Obs where
 def parseCase (s : String) : Option Case :=
   match splitOn s ';' with
   | fam :: n :: d :: t :: rest => do
+    -- `ctx-<family>`: the same program, the deadline carried by the caller's context (no MaxDuration): same statement
+    let fam := if fam.startsWith "ctx-" then (fam.drop 4).toString else fam
     let need ← match rest with
       | [] => some none
       | [x] => x.toNat?.map some
